@@ -493,6 +493,7 @@ class Check:
         if expect == "pass" and not r["ok"]:
             # a counterexample in the model is a claim about the code only once replayed (see DESIGN.md section 6)
             self.notes.append("MODEL-COUNTEREXAMPLE %s/%s: %s" % (module, cfg_name, rec["result"]))
+            self.tool_errors.append("the model %s/%s fails on its own (%s, see %s): the specification and the code under test disagree before any execution was judged" % (module, cfg_name, rec["result"], r["out_path"]))
         return r
 
     # ---- conformance
@@ -570,8 +571,10 @@ class Check:
         for k, v in self.known.items():
             log("KNOWN-FINDING: property=%s %s -- %s (reproduced %d times in this run)" % (self.prop, k, v["what"], v["count"]))
         if self.tool_errors:
-            for e in self.tool_errors:
-                log("TOOL-ERROR property=%s %s" % (self.prop, e))
+            for e in self.tool_errors[:8]:
+                log("TOOL-ERROR property=%s %s" % (self.prop, str(e)[:1500]))
+            if len(self.tool_errors) > 8:
+                log("TOOL-ERROR property=%s ... and %d more" % (self.prop, len(self.tool_errors) - 8))
         if self.violations:
             seen = set()
             for what, path in self.violations:
